@@ -1704,6 +1704,39 @@ FK_RESTRICT = {'Topic': [('Subscription', 'topic_id'), ('Message', 'topic_id'), 
                'Subscription': [('Delivery', 'subscription_id')], 'Message': [('Delivery', 'message_id')],
                'Delivery': [], 'Snapshot': []}
 FK_SETNULL = {'Delivery': [('Delivery', 'not_before_id')], 'Topic': [('Subscription', 'dead_letter_topic_id')]}
+# symbol in ent/migrate/schema.go -> (parent entity, (child entity, fk column))
+FK_SYMBOLS = {'deliveries_messages_message': ('Message', ('Delivery', 'message_id')), 'deliveries_subscriptions_subscription': ('Subscription', ('Delivery', 'subscription_id')),
+              'deliveries_deliveries_nextReady': ('Delivery', ('Delivery', 'not_before_id')), 'messages_topics_topic': ('Topic', ('Message', 'topic_id')),
+              'snapshots_topics_topic': ('Topic', ('Snapshot', 'topic_id')), 'subscriptions_topics_topic': ('Topic', ('Subscription', 'topic_id')),
+              'subscriptions_topics_deadLetterTopic': ('Topic', ('Subscription', 'dead_letter_topic_id'))}
+
+
+def load_fk_rules(repo):
+    """ON DELETE behaviour of the foreign keys as declared in the current tree (ent/migrate/schema.go, declarative data): SetNull or
+    restrict (NoAction / Restrict); an action the model does not know makes deletes of that parent unsupported"""
+    import os as _os
+    path = _os.path.join(repo, 'ent', 'migrate', 'schema.go')
+    try:
+        src = open(path).read()
+    except OSError:
+        return
+    found = re.findall(r'Symbol:\s*"([^"]+)",.*?OnDelete:\s*schema\.(\w+)', src, re.S)
+    if not found:
+        return
+    restrict = {e: [] for e in FK_RESTRICT}
+    setnull = {}
+    for sym, action in found:
+        if sym not in FK_SYMBOLS:
+            continue
+        parent, child = FK_SYMBOLS[sym]
+        if action == 'SetNull':
+            setnull.setdefault(parent, []).append(child)
+        elif action in ('NoAction', 'Restrict'):
+            restrict.setdefault(parent, []).append(child)
+        else:
+            restrict.setdefault(parent, []).append(child + ('unsupported:' + action,))
+    FK_RESTRICT.clear(); FK_RESTRICT.update(restrict)
+    FK_SETNULL.clear(); FK_SETNULL.update(setnull)
 
 
 def delete_terminal(ex, b, meth, a):
@@ -1727,7 +1760,9 @@ def delete_terminal(ex, b, meth, a):
         conds.append((r, And(r.exists, *[eval_pred(ex, db, w, ctx, alias)[0] for w in sel.wheres])))
     # FK RESTRICT: a deleted row still referenced by a surviving child fails the statement
     viol = []
-    for child, fkcol in FK_RESTRICT.get(e, []):
+    for child, fkcol, *bad in FK_RESTRICT.get(e, []):
+        if bad:
+            raise Unsupported('foreign key %s.%s with ON DELETE %s' % (child, fkcol, bad[0]))
         for r, c in conds:
             for ch in db.t[child]:
                 viol.append(And(c, ch.exists, Not(ch.isnull(fkcol)), ex.eq(ch.v[fkcol], r.v['id'])))
@@ -1751,6 +1786,8 @@ def delete_terminal(ex, b, meth, a):
 
 
 def install(xp, prog):
+    from .runner import REPO as _REPO
+    load_fk_rules(_REPO)
     xp.schema = getattr(prog, '_schema', None) or Schema(prog)
     prog._schema = xp.schema
     xp.schema.by_pkg = {e.lower(): e for e in ENTITIES}
